@@ -29,10 +29,12 @@ MATS = ["NeoHooke", "NeoHookeCompressible", "tt:yeoh", "tt:ogden", "jax:mooney_r
         "tt:miehe_goektepe_lulei", "LinearElasticLargeStrain"]
 AXIS = ["internal/3d", "internal/planestrain", "internal/axi", "internal/mixed", "internal/mixed-axi", "internal/nearlyinc", "internal/nearlyinc-axi",
         "internal/mini", "bodyforce/3d", "bodyforce/planestrain", "bodyforce/axi", "bodyforce/mixed", "gravity", "pointload", "pointload/axi", "pressure/3d",
-        "pressure/planestrain", "pressure/axi", "mass", "mass/mixed", "mass/axi", "mass/nearlyinc", "mpc", "contact"]
+        "pressure/planestrain", "pressure/axi", "mass", "mass/mixed", "mass/axi", "mass/nearlyinc", "mpc", "contact", "bodyforce/uniform", "mass/uniform"]
 
 
 def kinds_for(ax):
+    if ax in ("bodyforce/uniform", "mass/uniform"):
+        return ["quad", "hexahedron", "quad8", "hexahedron20"]
     if ax in ("internal/3d", "gravity", "pointload", "mass", "mpc", "contact", "bodyforce/3d"):
         return c01.K3 + c01.K2
     if ax == "mass/nearlyinc":
@@ -68,7 +70,10 @@ def strategy(ax, tier):
 def volume_of(region, axi_field=None):
     if axi_field is not None:
         return float((2 * np.pi * axi_field.radius * region.dV).sum())
-    return float(region.dV.sum())
+    dV = np.asarray(region.dV)
+    if dV.shape[-1] == 1 and region.mesh.ncells > 1:
+        return float(dV.sum()) * region.mesh.ncells  # uniform region: one stored cell stands for all
+    return float(dV.sum())
 
 
 def check(ax, case, rec):
@@ -79,9 +84,16 @@ def check(ax, case, rec):
     axi = ax.endswith("axi")
     if axi:
         spec["a"] = [spec["a"][0], abs(spec["a"][1]) + 0.4]
+    uniform = ax.endswith("/uniform")
+    if uniform:
+        # equidistant axis-parallel grid with the compressed storage of a uniform region: values that are constant over the cells
+        # (a body force, the density) are broadcast from one cell to all
+        spec.update(jitter=0.0, affine=None, ratio=None, curve=0.0)
+        ax = ax.replace("/uniform", "/3d") if ax.startswith("bodyforce") else "mass"
+        rec.label("uniform-region")
     mesh, info = gm.build(spec)
     dim = info["dim"]
-    region = gm.region(mesh, info)
+    region = gm.region(mesh, info, uniform=True) if uniform else gm.region(mesh, info)
     X = np.array(mesh.points)
     rng = np.random.default_rng(c["lseed"])
     mname, mpar = c["mat"]["name"], c["mat"]["params"]
@@ -133,7 +145,19 @@ def check(ax, case, rec):
         if not ok:
             rec.reject("det F < 0.3")
             return
-        r = body.assemble.vector(fc)
+        if not kind.startswith("nearlyinc") and (c["lseed"] + c["useed"]) % 3 == 1:
+            # the body has seen another state before; the final state arrives with the matrix (field handed over), the vector is
+            # asked for afterwards without a field: it belongs to the state seen last
+            final = [np.array(f_.values).copy() for f_ in fc.fields]
+            fc.fields[0].values[...] = 0.6 * final[0][::-1]
+            body.assemble.vector(fc)
+            for f_, v_ in zip(fc.fields, final):
+                f_.values[...] = v_
+            body.assemble.matrix(fc)
+            r = body.assemble.vector()
+            rec.label("state-handed-over-with-the-matrix,-vector-without-field")
+        else:
+            r = body.assemble.vector(fc)
         if kind.startswith("nearlyinc"):
             r = body.assemble.vector(fc)
         r = np.asarray(r.toarray()).ravel()
